@@ -1,8 +1,10 @@
 (* C20 -- Hessenberg determinants: statements only (proofs in coq/Hess/). *)
 From mathcomp Require Import all_ssreflect all_algebra.
+From mathcomp Require Import complex.
 Require Import ZArith.
 Require Import MPSV.Hess.HessModel MPSV.Hess.HessDet MPSV.Hess.HessScale MPSV.Hess.HessApriori
-               MPSV.Hess.HessErrVec MPSV.Hess.HessGauss MPSV.Hess.HessTie.
+               MPSV.Hess.HessErrVec MPSV.Hess.HessGauss MPSV.Hess.HessTie MPSV.Hess.HessStd.
+Require MPSV.Hess.HessB64.
 
 Set Implicit Arguments.
 Unset Strict Implicit.
@@ -171,3 +173,64 @@ Print Assumptions C20_mhess_error_sound_partial.
 Example C20_mhess_error_nonvacuous :
   @mhess_rec int int (flops toy_model2) +%R *%R 0 1 (fun x => `|x|) L3e 3 1 = (704, 3311).
 Proof. exact: toy2_values. Qed.
+
+(* ---- explicit constants ------------------------------------------------------------------------
+   R any real closed field, rnd : R -> R any rounding obeying the standard model |rnd t - t| <= u |t|
+   (binary64: u = 2^-53, see C20_binary64_standard_model; rdpe_t: u = 2^-52; no underflow/overflow).
+   Complex numbers are (re, im) pairs, N = complex modulus, and the operations are those of mt.c:
+       cfsub x y = (rnd (a - c), rnd (b - d))
+       cfmul x y = (rnd (rnd (a c) - rnd (b d)), rnd (rnd (a d) + rnd (b c)))   (cplx_mul, cdpe_mul)
+   They form a round_model with es = u, em = 3/2 ((1+u)^2 - 1) (HessStd.std_model: the normwise constants
+   are DERIVED, not assumed), hence for the recurrence of the f and d variants, order n = m+1:
+       |computed - det-recurrence| <= ((1+u)^(5 n) - 1) * B <= 5 n u / (1 - 5 n u) * B,
+   i.e. exactly gamma(C n, u) * B with C = 5, the predicate evaluated by checks/C20.py (C_F = C_D = 5).
+   Still assumed: the standard model itself for each primitive (binary64: proved below from Flocq for the
+   normal range, in stdlib Reals, not linked to the abstract rcfType; rdpe_t: C12), exactness of the
+   power-of-two rescaling (C20_scaling_invariant treats it in exact arithmetic). *)
+Theorem C20_fhess_apriori_explicit :
+  forall (R : rcfType) (u : R) (rnd : R -> R) (u_ge0 : 0 <= u)
+         (rnd_err : forall t, `|rnd t - t| <= u * `|t|)
+         (Hl Al : seq R[i]) (m : nat) (s sa : R[i]),
+    (forall k, `|nth 0 Hl k| <= nth 0 Al k) -> `|s| <= sa ->
+    `|hess_rec (flops (std_model u_ge0 rnd_err)) Hl m.+1 s - hess_rec (rops _) Hl m.+1 s|
+    <= (((1 + u) ^+ (5 * m.+1) - 1)%:C)%C * hess_rec (aops _) Al m.+1 sa.
+Proof. move=> R u rnd u0 re Hl Al m s sa; exact: fhess_apriori_std. Qed.
+Print Assumptions C20_fhess_apriori_explicit.
+
+Theorem C20_fhess_apriori_gamma :
+  forall (R : rcfType) (u : R) (rnd : R -> R) (u_ge0 : 0 <= u)
+         (rnd_err : forall t, `|rnd t - t| <= u * `|t|)
+         (Hl Al : seq R[i]) (m : nat) (s sa : R[i]),
+    (5 * m.+1)%:R * u < 1 ->
+    (forall k, `|nth 0 Hl k| <= nth 0 Al k) -> `|s| <= sa ->
+    `|hess_rec (flops (std_model u_ge0 rnd_err)) Hl m.+1 s - hess_rec (rops _) Hl m.+1 s|
+    <= (((5 * m.+1)%:R * u / (1 - (5 * m.+1)%:R * u))%:C)%C * hess_rec (aops _) Al m.+1 sa.
+Proof. move=> R u rnd u0 re Hl Al m s sa; exact: fhess_apriori_gamma. Qed.
+Print Assumptions C20_fhess_apriori_gamma.
+
+(* the rounded product really is the 4-multiplication formula on components *)
+Example C20_cfmul_unfold :
+  forall (R : rcfType) (rnd : R -> R) (a b c d : R),
+    cfmul rnd (a +i* b)%C (c +i* d)%C
+    = (rnd (rnd (a * c) - rnd (b * d)) +i* rnd (rnd (a * d) + rnd (b * c)))%C.
+Proof. by []. Qed.
+
+(* Any rounding model with es <= u and em <= (1+u)^k - 1 (k = 3 above).  For the m variant: mpc_sub is
+   componentwise (es = u) and mpc_mul uses the 3-multiplication product ((a-b)(c+d) - ad + bc, ad + bc);
+   a pen-and-paper analysis gives em <= (1+u)^14 - 1, i.e. k = 14 and C = 16 (C_M of checks/C20.py) with
+   u = 2^(1-wp).  That value of k is NOT derived in Coq: it enters as the hypothesis em_u. *)
+Theorem C20_hess_apriori_pow :
+  forall (R : comRingType) (F : numDomainType) (M : round_model R F) (u : F) (k : nat),
+    0 <= u -> rm_es M <= u -> rm_em M <= (1 + u) ^+ k - 1 ->
+  forall (Hl : seq R) (Al : seq F) (m : nat) (s : R) (sa : F),
+    (forall j, rm_N M (nth 0 Hl j) <= nth 0 Al j) -> rm_N M s <= sa ->
+    rm_N M (hess_rec (flops M) Hl m.+1 s - hess_rec (rops R) Hl m.+1 s)
+    <= ((1 + u) ^+ ((k + 2) * m.+1) - 1) * hess_rec (aops F) Al m.+1 sa.
+Proof. move=> R F M u k u0 es em Hl Al m s sa; exact: hess_apriori_pow. Qed.
+Print Assumptions C20_hess_apriori_pow.
+
+(* binary64 round-to-nearest-even satisfies the standard model with u = 2^-53 on the normal range
+   (Flocq; statement: forall x, 2^-1022 <= |x| -> |round_FLT(-1074,53),RNE x - x| <= 2^-53 |x|) *)
+Theorem C20_binary64_standard_model : HessB64.b64_standard_model_stmt.
+Proof. exact: HessB64.b64_standard_model. Qed.
+Print Assumptions C20_binary64_standard_model.
